@@ -5,6 +5,7 @@ checker for the relational IR (used by the ORACLE on the IR the real front end e
 Table programs P (M: matrix-table programs):
   ['range'] ['keyby', P, [f..]] ['keyby_expr', P, [[f, E]..]] ['annotate', P, [[f, E]..]] ['select', P, [f..]] ['drop', P, [f..]]
   ['annotate_globals', P, [[f, E]..]] ['filter', P, E] ['join', P, P] ['rows', M] ['cols', M] ['entries', M]
+  ['order_by', P, [[f | E, 'A' | 'A+' | 'D']..]]   t.order_by(f / expr, hl.asc(..), hl.desc(..))
   ['mrange'] ['mannotate_rows' | 'mannotate_cols' | 'mannotate_entries' | 'mannotate_globals', M, [[f, E]..]]
   ['mkeyrows', M, [f..]] ['mkeycols', M, [f..]]
 Expressions E (in the context of the operation's input): those of c36_lang plus
@@ -79,6 +80,8 @@ def shape(P):
         s['glob'] = [f for f in s['glob'] if f not in P[2]]
     elif k == 'filter':
         pass
+    elif k == 'order_by':
+        s['key'] = []
     elif k == 'rows':
         s = {'kind': 't', 'glob': s['glob'], 'row': s['row'], 'key': s['rowkey'], 'iv': s['iv']}
     elif k == 'cols':
@@ -176,6 +179,14 @@ def to_coq(P, n):
         return f'({simple[k]} {sub} {_names_list(P[2], n)})'
     if k in ('rows', 'cols', 'entries'):
         return f'({ {"rows": "PRows", "cols": "PCols", "entries": "PEntries"}[k]} {sub})'
+    if k == 'order_by':
+        if s['kind'] != 't':
+            raise OutsideModel('kind')
+        if any(not isinstance(x, str) for x, _ in P[2]):
+            raise OutsideModel('order_by with a computed sort expression')
+        if any(x in s['glob'] and x not in s['row'] for x, _ in P[2]):
+            raise OutsideModel('order_by with a global field (rejected before typing)')
+        return f'(POrderBy {sub} [' + '; '.join(f'({n.field(x)}, {"false" if o == "D" else "true"})' for x, o in P[2]) + '])'
     if k == 'filter':
         if find_lookups(P[2], []):
             raise OutsideModel('filter with a lookup')
@@ -267,6 +278,8 @@ def coq_to_rir(v, n):
     fb = n.field_back
     if k in ('TableKeyBy', 'MatrixKeyRowsBy'):
         return [[k, [fb(f) for f in v[2]]], [r(v[1])]]
+    if k == 'TableOrderBy':
+        return [[k, [[fb(f), 'A' if a else 'D'] for f, a in v[2]]], [r(v[1])]]
     if k in ('TableMapRows', 'TableMapGlobals', 'TableFilter', 'MatrixMapRows', 'MatrixMapEntries', 'MatrixMapGlobals'):
         return [[k], [r(v[1]), _val_back(v[2], n)]]
     if k == 'MatrixMapCols':
@@ -296,7 +309,9 @@ def canon_uids(term):
         h, cs = t
         h2 = []
         for x in h:
-            if isinstance(x, list) and not (len(x) == 2 and x[0] == 'uid') and h[0] in (
+            if h[0] == 'TableOrderBy' and isinstance(x, list):
+                h2.append([[nm(f), o] for f, o in x])
+            elif isinstance(x, list) and not (len(x) == 2 and x[0] == 'uid') and h[0] in (
                     'TableKeyBy', 'MatrixKeyRowsBy', 'MatrixMapCols', 'SelectFields', 'InsertFields', 'MakeStruct'):
                 h2.append([nm(y) for y in x])
             else:
@@ -393,6 +408,11 @@ def strict_rel(term):
         if val(cs[1], row_env(t)) != 'bool':
             raise IllTyped(k + ':predicate')
         return t
+    if k == 'TableOrderBy':              # TableIR.scala:2593  typ = child.typ.copy(key = FastSeq())
+        t = tab(cs[0], k)
+        if any(f not in _names(t['row']) for f, _ in h[1]):
+            raise IllTyped(k + ':sort-field-not-in-row')
+        return {**t, 'key': []}
     if k == 'TableLeftJoinRightDistinct':
         lt, rt = tab(cs[0], k), tab(cs[1], k)
         if not _prefix(_key_types(rt['row'], rt['key'], k), _key_types(lt['row'], lt['key'], k)):
@@ -473,7 +493,9 @@ def strict_rel(term):
         m, t = mat(cs[0], k), tab(cs[1], k)
         if h[1] in _names(m['col']):
             raise IllTyped(k + ':root-exists')
-        if _key_types(t['row'], t['key'], k) != _key_types(m['col'], m['colkey'], k):
+        # LowerMatrixIR.scala:236-255: the column key struct is built from table.key zip colKey and looked up in a dict keyed
+        # by table.keyType: the table's key types must be the first col key types
+        if not _prefix(_key_types(t['row'], t['key'], k), _key_types(m['col'], m['colkey'], k)):
             raise IllTyped(k + ':key-mismatch')
         return {**m, 'col': m['col'] + [[h[1], _value(t['row'], t['key'])]]}
     raise IllTyped('unknown-node:' + str(k))
@@ -601,6 +623,27 @@ class TGen:
             M = ['mkeycols', M, ck]
         return M, row, col, entry, rk, ck
 
+    def sort_fields(self, fields, key):
+        """order_by arguments: an ascending prefix of the key, the whole key, descending / non-key fields, none, computed"""
+        rng = self.rng
+        how = rng.choice(['prefix', 'prefix', 'key', 'desc', 'nonkey', 'none', 'mixed', 'computed'])
+        o = lambda: rng.choice(['A', 'A+'])  # noqa: E731
+        names = list(fields)
+        if how == 'prefix' and key:
+            return [[k, o()] for k in key[:rng.randint(1, len(key))]]
+        if how == 'key':
+            return [[k, o()] for k in key]
+        if how == 'desc' and key:
+            return [[k, 'D' if i == 0 or rng.random() < 0.5 else o()] for i, k in enumerate(key)]
+        if how == 'none':
+            return []
+        if how == 'computed':
+            num = [f for f in names if fields[f] in ('int32', 'int64', 'float64')]
+            if num:
+                return [[['arith', '+', ['rf', rng.choice(num)], ['litint', 1]], rng.choice(['A', 'A+', 'D'])]] + \
+                       [[f, o()] for f in rng.sample(names, rng.randint(0, 1))]
+        return [[f, rng.choice(['A', 'A+', 'D'])] for f in rng.sample(names, rng.randint(1, min(3, len(names))))]
+
     def use(self, lk, rfields, rkey, am):
         """an expression using the lookup: itself, one of its fields, or its length"""
         rng = self.rng
@@ -633,7 +676,7 @@ class TGen:
         if fam == 'chain':
             P, fields, key = self.table()
             for _ in range(rng.randint(1, 3)):
-                op = rng.choice(['annotate', 'select', 'drop', 'filter', 'keyby', 'globals'])
+                op = rng.choice(['annotate', 'select', 'drop', 'filter', 'keyby', 'globals', 'order_by', 'order_by'])
                 nonkey = [f for f in fields if f not in key]
                 if op == 'annotate':
                     f, t = rng.choice(L.FIELDS), rng.choice(TYPES)
@@ -648,6 +691,9 @@ class TGen:
                     ks = rng.sample(nonkey, 1)
                     P = ['drop', P, ks]
                     del fields[ks[0]]
+                elif op == 'order_by':
+                    P = ['order_by', P, self.sort_fields(fields, key)]
+                    key = []
                 elif op == 'filter':
                     P = ['filter', P, self.expr('bool' if rng.random() < 0.9 else 'int32', fields)]
                 elif op == 'keyby':
